@@ -346,6 +346,10 @@ def bool_forms(form, vars_):
                 r[-1] = False
             return r
         return x, val
+    if form == "tied":
+        # neighbouring positions hand in the SAME variable object (auxiliary variables must be allocated per position, not per
+        # distinct operand)
+        return [vars_[(i // 2) * 2] for i in range(n)], lambda a: [a[(i // 2) * 2] for i in range(n)]
     if form == "cmp":
         # every operand is a COMPARISON node equivalent to the variable (>, >=, <, <=, ==, != in turn): an encoder that looks
         # inside its operands (pushing a negation into them, say) must keep their meaning
